@@ -115,6 +115,21 @@ def one_dataset(obs, rng, conv, spec, workdir=None):
             else:
                 obs.cls('colliding-name-accepted')
                 obs.expect(nan_equal(numpy.asarray(flat3.values), want_vals), 'ravel with colliding name returned altered values')
+        # ---- ravel, custom name equal to one of the grid dimensions that are being flattened away: the old dimension is gone
+        # from the result, so there is nothing left to collide with
+        if rng.random() < 0.3:
+            own = kind.dims[int(rng.integers(len(kind.dims)))]
+            flat4 = obs.call('ravel(linear_dimension=<a flattened grid dimension>)', ems.ravel, da, linear_dimension=own,
+                             mech='flattened-dimension-name-refused')
+            if not isinstance(flat4, Failed):
+                obs.cls('linear-name-of-a-flattened-dimension')
+                obs.expect(tuple(flat4.dims) == want_dims + (own,) and nan_equal(flat4.values, want_vals),
+                           'ravel with the name of a flattened grid dimension as linear dimension', lambda: {'out_dims': flat4.dims, 'name': own},
+                           mech='flattened-dimension-name')
+                back4 = obs.call('wind(ravel(v, linear_dimension=<grid dimension>))', ems.wind, flat4, grid_kind=token, linear_dimension=own)
+                if not isinstance(back4, Failed):
+                    obs.expect(tuple(back4.dims) == want_dims + kind.dims and nan_equal(back4.values, da.transpose(*(want_dims + kind.dims)).values),
+                               'winding by that name restores the variable', mech='flattened-dimension-name')
         # ---- wind(ravel(v)) ------------------------------------------------------------------
         wound = obs.call('wind(ravel)', ems.wind, flat, grid_kind=token)
         if not isinstance(wound, Failed):
